@@ -393,6 +393,25 @@ struct Obs {
     /// driver tokens before the `@`
     tok: String,
     kind: &'static str,
+    /// when the observation is made on a stream *derived* from the variable (`s drop k`, `s[k:]`,
+    /// `tail(s)`, …): the derived stream expression (source already substituted into `src`)
+    derived: Option<SE>,
+}
+/// replace the free variable `s` of an observation by `with`
+fn subst_s(src: &str, with: &str) -> String {
+    let cs: Vec<char> = src.chars().collect();
+    let mut out = String::new();
+    let is_id = |c: char| c.is_alphanumeric() || c == '_';
+    for (i, c) in cs.iter().enumerate() {
+        let prev_id = i > 0 && is_id(cs[i - 1]);
+        let next_id = i + 1 < cs.len() && is_id(cs[i + 1]);
+        if *c == 's' && !prev_id && !next_id {
+            out.push_str(with);
+        } else {
+            out.push(*c);
+        }
+    }
+    out
 }
 fn idx_src(i: i64) -> String {
     if i < 0 {
@@ -410,39 +429,39 @@ fn gen_obs(rng: &mut Rng, info: &Info, elems: &[V], uniq: usize) -> Obs {
     loop {
         let pick = rng.below(20);
         match pick {
-            0 if can_len => return Obs { src: "len(s)".into(), tok: "len".into(), kind: "len" },
+            0 if can_len => return Obs { src: "len(s)".into(), tok: "len".into(), kind: "len", derived: None },
             1 if finite_ok => {
                 let src = match rng.below(3) {
                     0 => "list(s)",
                     1 => "[...s]",
                     _ => "for (x <- s) yield x",
                 };
-                return Obs { src: src.into(), tok: "list".into(), kind: "list" };
+                return Obs { src: src.into(), tok: "list".into(), kind: "list", derived: None };
             }
             2 if finite_ok => {
-                return Obs { src: "for (i, x <<- s) yield [i, x]".into(), tok: "pairs".into(), kind: "list" }
+                return Obs { src: "for (i, x <<- s) yield [i, x]".into(), tok: "pairs".into(), kind: "list", derived: None }
             }
             3 if finite_ok || info.rev_stream => {
                 // reverse of repeat / cycle is a stream; of iota / iterate it does not terminate
-                return Obs { src: "reverse(s)".into(), tok: "rev".into(), kind: "reverse" };
+                return Obs { src: "reverse(s)".into(), tok: "rev".into(), kind: "reverse", derived: None };
             }
-            4 if finite_ok => return Obs { src: "last(s)".into(), tok: "last".into(), kind: "last" },
-            5 => return Obs { src: "first(s)".into(), tok: "first".into(), kind: "first" },
+            4 if finite_ok => return Obs { src: "last(s)".into(), tok: "last".into(), kind: "last", derived: None },
+            5 => return Obs { src: "first(s)".into(), tok: "first".into(), kind: "first", derived: None },
             6 if can_len => {
-                return Obs { src: "if (s) 1 else 0".into(), tok: "truthy".into(), kind: "truthy" }
+                return Obs { src: "if (s) 1 else 0".into(), tok: "truthy".into(), kind: "truthy", derived: None }
             }
             7 | 8 | 9 => {
                 let i = if finite_ok { bound(rng) } else { nonneg(rng) };
                 if rng.chance(1, 12) {
                     let bad = *rng.pick(&["1.5", "\"a\"", "2^64", "1.0", "null", "(0-2^63-1)"]);
-                    return Obs { src: format!("s[{}]", bad), tok: "idx bad".into(), kind: "index-bad" };
+                    return Obs { src: format!("s[{}]", bad), tok: "idx bad".into(), kind: "index-bad", derived: None };
                 }
                 let src = match (i, rng.below(6)) {
                     (1, 0) => "second(s)".to_string(),
                     (2, 0) => "third(s)".to_string(),
                     _ => format!("s[{}]", idx_src(i)),
                 };
-                return Obs { src, tok: format!("idx {}", i), kind: if i < 0 { "index-neg" } else { "index" } };
+                return Obs { src, tok: format!("idx {}", i), kind: if i < 0 { "index-neg" } else { "index" }, derived: None };
             }
             10 | 11 | 12 | 13 => {
                 let lo = if rng.chance(1, 5) { None } else { Some(if finite_ok { bound(rng) } else { nonneg(rng) }) };
@@ -459,7 +478,7 @@ fn gen_obs(rng: &mut Rng, info: &Info, elems: &[V], uniq: usize) -> Obs {
                         (format!("s[{}:{}]", lo.map(idx_src).unwrap_or_default(), bad),
                          format!("slice {} bad", lo.map(|x| x.to_string()).unwrap_or("_".into())))
                     };
-                    return Obs { src, tok, kind: "slice-bad" };
+                    return Obs { src, tok, kind: "slice-bad", derived: None };
                 }
                 let tok = format!(
                     "slice {} {}",
@@ -481,7 +500,7 @@ fn gen_obs(rng: &mut Rng, info: &Info, elems: &[V], uniq: usize) -> Obs {
                 } else {
                     "slice"
                 };
-                return Obs { src, tok, kind };
+                return Obs { src, tok, kind, derived: None };
             }
             14 | 15 => {
                 // membership: an element that occurs, or (finite streams only) one that does not
@@ -493,7 +512,7 @@ fn gen_obs(rng: &mut Rng, info: &Info, elems: &[V], uniq: usize) -> Obs {
                 } else {
                     continue;
                 };
-                return Obs { src: format!("({}) in s", x.src()), tok: format!("in {}", x.tok()), kind: "in" };
+                return Obs { src: format!("({}) in s", x.src()), tok: format!("in {}", x.tok()), kind: "in", derived: None };
             }
             16 if can_len && !info.huge => {
                 let k = if info.finite { (l + rng.range(-1, 1)).max(2) } else { 2 } as usize;
@@ -506,6 +525,7 @@ fn gen_obs(rng: &mut Rng, info: &Info, elems: &[V], uniq: usize) -> Obs {
                     src: format!("{} := s; [{}]", names.join(", "), names.join(", ")),
                     tok: format!("unpack {}", k),
                     kind: "unpack",
+                    derived: None,
                 };
             }
             17 if finite_ok && info.exact => {
@@ -531,12 +551,16 @@ fn gen_obs(rng: &mut Rng, info: &Info, elems: &[V], uniq: usize) -> Obs {
                     src: format!("{} := s; [{}]", all.join(", "), names.join(", ")),
                     tok: format!("unpackSplat {} {}", before, after),
                     kind: "unpack-splat",
+                    derived: None,
                 };
+            }
+            19 if can_len => {
+                return Obs { src: "only(s)".into(), tok: "only".into(), kind: "only", derived: None };
             }
             18 => {
                 let p = gen_pred(rng, info, finite_ok);
                 if let Some(p) = p {
-                    return Obs { src: format!("s take ({})", pred_src(&p)), tok: format!("takeWhile {}", p), kind: "take-while" };
+                    return Obs { src: format!("s take ({})", pred_src(&p)), tok: format!("takeWhile {}", p), kind: "take-while", derived: None };
                 }
             }
             _ => {}
@@ -847,23 +871,77 @@ fn candidate_elems(e: &SE, skip: usize) -> Vec<V> {
     }
 }
 
+/// an observation on a stream derived from the variable: `s drop k`, `s[k:]`, `tail(s)`, possibly
+/// twice.  The variable itself has usually been observed before (its length asked, iterated,
+/// indexed): a derived position must answer for its own remaining elements.
+fn gen_derived_obs(rng: &mut Rng, expr: &SE, info: &Info, uniq: usize, force_k: Option<usize>) -> Option<Obs> {
+    if info.bad || info.huge {
+        return None;
+    }
+    let pick_k = |rng: &mut Rng, i: &Info| -> usize {
+        if i.finite { rng.below(i.len as u64 + 2) as usize } else { rng.below(6) as usize }
+    };
+    let k = force_k.unwrap_or_else(|| pick_k(rng, info));
+    let variant = rng.below(3) as u8;
+    let mut dexpr = SE::DropS(k, Box::new(expr.clone()), variant.min(1));
+    let mut dsrc = match (k, variant) {
+        (1, 2) => "tail(s)".to_string(),
+        (_, 0) => format!("(s)[{}:]", k),
+        _ => format!("(s drop {})", k),
+    };
+    if force_k.is_none() && rng.chance(1, 4) {
+        let i1 = dexpr.info();
+        let k2 = pick_k(rng, &i1);
+        dexpr = SE::DropS(k2, Box::new(dexpr), 1);
+        dsrc = format!("({} drop {})", dsrc, k2);
+    }
+    let dinfo = dexpr.info();
+    // the result must be a stream again for the model's `dropS` (repeat / default slices are)
+    let delems = candidate_elems(&dexpr, 0);
+    let mut o = gen_obs(rng, &dinfo, &delems, uniq);
+    o.src = subst_s(&o.src, &dsrc);
+    o.derived = Some(dexpr);
+    Some(o)
+}
+
 fn make_case(rng: &mut Rng, expr: SE, nobs: usize, uniq: &mut usize) -> Case {
     let info = expr.info();
     let elems = candidate_elems(&expr, 0);
     let mut obs = vec![];
     if info.bad {
-        obs.push(Obs { src: "len(s)".into(), tok: "len".into(), kind: "len" });
+        obs.push(Obs { src: "len(s)".into(), tok: "len".into(), kind: "len", derived: None });
     } else {
         for _ in 0..nobs {
             *uniq += 1;
+            if rng.chance(1, 3) {
+                if let Some(o) = gen_derived_obs(rng, &expr, &info, *uniq, None) {
+                    obs.push(o);
+                    continue;
+                }
+            }
             obs.push(gen_obs(rng, &info, &elems, *uniq));
         }
         // always end with a second look at length and contents: nothing may have moved
-        if info.len_override || (info.finite && !info.huge) {
-            obs.push(Obs { src: "len(s)".into(), tok: "len".into(), kind: "len" });
+        let can_len = info.len_override || (info.finite && !info.huge);
+        if can_len {
+            obs.push(Obs { src: "len(s)".into(), tok: "len".into(), kind: "len", derived: None });
         }
         if info.finite && !info.huge {
-            obs.push(Obs { src: "list(s)".into(), tok: "list".into(), kind: "list" });
+            obs.push(Obs { src: "list(s)".into(), tok: "list".into(), kind: "list", derived: None });
+        }
+        // ... and, the length of the variable having been asked, every derived position must still
+        // count its own elements: one step further, and the exhausted tail
+        if can_len && !info.huge {
+            let ks: Vec<usize> = if info.finite { vec![1, info.len, info.len.saturating_sub(1)] } else { vec![1, 3] };
+            for (n, k) in ks.into_iter().enumerate() {
+                let dexpr = SE::DropS(k, Box::new(expr.clone()), 1);
+                let (src, tok, kind) = match n {
+                    0 => (format!("len(s drop {})", k), "len", "len"),
+                    1 => (format!("if (s drop {}) 1 else 0", k), "truthy", "truthy"),
+                    _ => (format!("only((s)[{}:])", k), "only", "only"),
+                };
+                obs.push(Obs { src, tok: tok.into(), kind, derived: Some(dexpr) });
+            }
         }
     }
     Case { expr, info, obs }
@@ -1110,7 +1188,10 @@ fn main() {
     for (ci, c) in cases.iter().enumerate() {
         let etok = c.expr.tok();
         for (oi, o) in c.obs.iter().enumerate() {
-            requests.push(format!("{} @ {}", o.tok, etok));
+            match &o.derived {
+                Some(d) => requests.push(format!("{} @ {}", o.tok, d.tok())),
+                None => requests.push(format!("{} @ {}", o.tok, etok)),
+            }
             meta.push((ci, oi));
         }
     }
@@ -1126,7 +1207,10 @@ fn main() {
     for (ri, (ci, oi)) in meta.iter().enumerate() {
         let c = &cases[*ci];
         let o = &c.obs[*oi];
-        let class = c.expr.class();
+        let class = match &o.derived {
+            Some(_) => format!("{}~derived", c.expr.class()),
+            None => c.expr.class(),
+        };
         let decl = real.get(&format!("{}.d", ci));
         let decl_class = decl.map(|x| x.0.clone()).unwrap_or("missing".into());
         let rust = if decl_class != "ok 0" {
@@ -1153,7 +1237,7 @@ fn main() {
         }
         let src_full = format!("s := {}; {}", c.expr.src(), o.src);
         let nontrivial = !matches!(c.expr, SE::Til(_, _, None, _) | SE::To(_, _, None, _));
-        rep.case(&format!("{} | {}", c.expr.tok(), o.tok), nontrivial);
+        rep.case(&format!("{} | {}", o.derived.as_ref().map(|d| d.tok()).unwrap_or_else(|| c.expr.tok()), o.tok), nontrivial);
         rep.arm(&format!("{}/{}", class, o.kind));
         rep.outcome(if rust.starts_with("ok") { "ok" } else { rust.split(' ').next().unwrap_or("?") });
         let key = format!("{}/{}", class, o.kind);
